@@ -280,6 +280,14 @@ func (c *checkSchema) collectAllowedJsonTypes(node ischema.Node, ss map[string]i
 	typesConstraint := node.Constraint(constraint.TypesListConstraintType)
 
 	if typesConstraint == nil {
+		if node.Constraint(constraint.AnyConstraintType) != nil || node.Constraint(constraint.EnumConstraintType) != nil {
+			// The JSON type of the example says nothing here: `any` admits every
+			// value and `enum` admits its items whatever their JSON types are.
+			for _, t := range json.AllTypes {
+				c.allowedJsonTypes[t] = struct{}{}
+			}
+			return
+		}
 		c.allowedJsonTypes[node.Type()] = struct{}{}
 		return
 	}
